@@ -42,6 +42,7 @@ def beIsConverged (o : Ops α) (small : α) (atol : Array α) (rtol : α) (res y
     let yr := yn1.getD c #[]
     (List.range rr.size).all fun v =>
       let a := o.abs (rd rr v)
+      o.isFinite (rd rr v) && o.isFinite (rd yr v) &&
       !(o.lt small a && o.lt (rd atol v) a && o.lt (rtol * o.abs (rd yr v)) a)
 
 /-- `AddToDiagonal(1/H)` on logical cells -/
@@ -64,7 +65,7 @@ def beStep (o : Ops α) (s : SolverCfg α) (p : BEParams α) (kc : Mat α) (atol
   let res := forcing.mapIdx fun c fr => fr.mapIdx fun v f =>
     f - (rd (r.Yn1.getD c #[]) v - rd (r.Yn.getD c #[]) v) / r.h
   let res := s.linSolve jac lo up res
-  let yn1 := r.Yn1.mapIdx fun c yr => yr.mapIdx fun v y => cmax o 0 (y + rd (res.getD c #[]) v)
+  let yn1 := r.Yn1.mapIdx fun c yr => yr.mapIdx fun v y => cmax o (y + rd (res.getD c #[]) v) 0
   let st := { st with functionCalls := st.functionCalls + 1, jacobianUpdates := st.jacobianUpdates + 1,
                       decompositions := st.decompositions + 1, solves := st.solves + 1 }
   let sc := { r.sc with f0 := res, jac := jac, lower := lo, upper := up }
